@@ -25,6 +25,7 @@ import (
 	"testing"
 
 	"github.com/aergoio/aergo-lib/db"
+	"github.com/aergoio/aergo/v2/internal/common"
 	"github.com/aergoio/aergo/v2/state/statedb"
 	"github.com/aergoio/aergo/v2/types"
 )
@@ -42,6 +43,8 @@ type c12Obs struct {
 	C []int64  `json:"c"` // cached storages
 	B []int64  `json:"b"` // account buffer
 	AH []int64 `json:"ah"` // AccountState handles
+	HS []int64 `json:"hs"` // the State embedded in each ContractState handle
+	L  []int64 `json:"last"` // result of the last result-returning call
 	R []string `json:"r"` // roots
 }
 
@@ -62,6 +65,11 @@ type c12Env struct {
 	snaps   []BlockSnapshot
 	csnaps  []c12CSnap
 	ahs     []*AccountState
+	csdb    *ChainStateDB
+	roots   [][]byte
+	ssnaps  []statedb.Snapshot
+	last    []int64
+	chash   map[string]int64 // code / source hash -> id
 	known   map[string]*types.State // leaf hash -> account state seen in the account buffer
 	vhash   map[string]int64        // leaf hash -> storage value id
 }
@@ -81,6 +89,28 @@ func c12ValID(b []byte) int64 {
 }
 
 func argI(op []interface{}, i int) int { return int(op[i].(float64)) }
+
+func c12Code(c int64) []byte { return []byte{0xC0, byte(c)} }
+func c12Src(c int64) []byte  { return []byte{0x50, byte(c), 0x01} }
+func c12RawKey(k int64) []byte { return []byte{'r', 'a', 'w', byte(k)} }
+
+func (e *c12Env) hashID(h []byte) int64 {
+	if len(h) == 0 {
+		return 0
+	}
+	if id, ok := e.chash[string(h)]; ok {
+		return id
+	}
+	return -7777
+}
+
+func (e *c12Env) fields(st *types.State) []int64 {
+	return []int64{new(big.Int).SetBytes(st.Balance).Int64(), int64(st.Nonce), e.hashID(st.CodeHash), int64(st.SqlRecoveryPoint), e.hashID(st.SourceHash)}
+}
+
+func (e *c12Env) resetCaller() {
+	e.handles, e.snaps, e.csnaps, e.ahs, e.ssnaps, e.last = nil, nil, nil, nil, nil, nil
+}
 
 type c12OOC struct{}
 
@@ -170,6 +200,126 @@ func (e *c12Env) exec(op []interface{}) {
 		case "areset":
 			as.Reset()
 		}
+	case "acreate":
+		as, err := CreateAccountState(e.ua[argI(op, 1)], e.sdb)
+		if err == nil {
+			e.ahs = append(e.ahs, as)
+		}
+	case "asetf", "openas":
+		h := argI(op, 1)
+		if h < 0 || h >= len(e.ahs) {
+			panic(c12OOC{})
+		}
+		as := e.ahs[h]
+		if op[0].(string) == "openas" {
+			cs, err := statedb.OpenContractState(as.ID(), as.State(), e.sdb)
+			if err != nil {
+				panic(err)
+			}
+			e.handles = append(e.handles, cs)
+			break
+		}
+		v := uint64(argI(op, 3))
+		switch argI(op, 2) {
+		case 1:
+			as.SetNonce(v)
+		case 2:
+			if v == 0 {
+				as.SetCodeHash(nil)
+			} else {
+				as.SetCodeHash(common.Hasher(c12Code(int64(v))))
+			}
+		case 3:
+			as.SetRP(v)
+		default:
+			panic(c12OOC{})
+		}
+	case "setcode", "getcode", "rawset", "rawget":
+		h := argI(op, 1)
+		if h < 0 || h >= len(e.handles) {
+			panic(c12OOC{})
+		}
+		cs := e.handles[h]
+		switch op[0].(string) {
+		case "setcode":
+			var src []byte
+			if argI(op, 3) != 0 {
+				src = c12Src(int64(argI(op, 3)))
+			}
+			if err := cs.SetCode(src, c12Code(int64(argI(op, 2)))); err != nil {
+				panic(err)
+			}
+		case "getcode":
+			code, err := cs.GetCode()
+			if err != nil {
+				panic(err)
+			}
+			if code == nil {
+				e.last = []int64{0}
+			} else if len(code) == 2 && code[0] == 0xC0 {
+				e.last = []int64{1, int64(code[1])}
+			} else {
+				e.last = []int64{1, -7777}
+			}
+		case "rawset":
+			if err := cs.SetRawKV(c12RawKey(int64(argI(op, 2))), c12Val(int64(argI(op, 3)))); err != nil {
+				panic(err)
+			}
+		case "rawget":
+			v, err := cs.GetRawKV(c12RawKey(int64(argI(op, 2))))
+			if err != nil {
+				panic(err)
+			}
+			if v == nil {
+				e.last = []int64{0}
+			} else {
+				e.last = []int64{1, c12ValID(v)}
+			}
+		}
+	case "ssnap":
+		e.ssnaps = append(e.ssnaps, e.sdb.Snapshot())
+	case "srb":
+		j := argI(op, 1)
+		if j < 0 || j >= len(e.ssnaps) || int(e.ssnaps[j]) > e.sdb.Buffer.VerifNextIdx() {
+			panic(c12OOC{})
+		}
+		if err := e.sdb.Rollback(e.ssnaps[j]); err != nil {
+			panic(err)
+		}
+	case "setroot":
+		i := argI(op, 1)
+		if i < 0 || i >= len(e.roots) {
+			panic(c12OOC{})
+		}
+		if len(e.roots[i]) != 0 && i%2 == 1 {
+			if err := e.sdb.Revert(types.ToHashID(e.roots[i])); err != nil {
+				panic(err)
+			}
+		} else if err := e.sdb.SetRoot(e.roots[i]); err != nil {
+			panic(err)
+		}
+	case "reopenat":
+		i := argI(op, 1)
+		if i < 0 || i >= len(e.roots) {
+			panic(c12OOC{})
+		}
+		if err := e.csdb.SetRoot(e.roots[i]); err != nil {
+			panic(err)
+		}
+		e.bs = e.csdb.NewBlockState(e.csdb.GetRoot())
+		e.sdb = e.bs.StateDB
+		e.resetCaller()
+	case "apply":
+		if err := e.csdb.Apply(e.bs); err != nil {
+			panic(err)
+		}
+		if string(e.csdb.GetRoot()) != string(e.sdb.GetRoot()) {
+			panic("main root differs from the applied block state root")
+		}
+		e.roots = append(e.roots, append([]byte{}, e.sdb.GetRoot()...))
+		e.bs = e.csdb.NewBlockState(e.csdb.GetRoot())
+		e.sdb = e.bs.StateDB
+		e.resetCaller()
 	case "snap":
 		e.snaps = append(e.snaps, e.bs.Snapshot())
 	case "rb":
@@ -213,10 +363,15 @@ func (e *c12Env) exec(op []interface{}) {
 		if err := e.sdb.Commit(); err != nil {
 			panic(err)
 		}
+		e.roots = append(e.roots, append([]byte{}, e.sdb.GetRoot()...))
 	case "reopen":
-		e.sdb = statedb.NewStateDB(e.store, e.sdb.GetRoot(), false)
+		if len(e.roots)%2 == 0 {
+			e.sdb = statedb.NewStateDB(e.store, e.sdb.GetRoot(), false)
+		} else {
+			e.sdb = e.sdb.Clone()
+		}
 		e.bs = NewBlockState(e.sdb)
-		e.handles, e.snaps, e.csnaps, e.ahs = nil, nil, nil, nil
+		e.resetCaller()
 	case "clear":
 		e.handles, e.csnaps, e.ahs = nil, nil, nil
 	default:
@@ -238,7 +393,9 @@ func (e *c12Env) allCached() []types.AccountID {
 func (e *c12Env) learn() {
 	for _, v := range e.sdb.Buffer.VerifValues() {
 		if st, ok := v.(*types.State); ok && st != nil {
-			e.known[string(statedb.VerifHash(st))] = st
+			cp := st.Clone()
+			cp.SourceHash = st.SourceHash // Clone omits it
+			e.known[string(statedb.VerifHash(st))] = cp
 		}
 	}
 }
@@ -262,7 +419,7 @@ func (e *c12Env) observe() c12Obs {
 		if st == nil {
 			n = append(n, 0)
 		} else {
-			n = append(n, 1, new(big.Int).SetBytes(st.Balance).Int64())
+			n = append(append(n, 1), e.fields(st)...)
 			r1 = append(r1, hex.EncodeToString(st.StorageRoot))
 		}
 	}
@@ -277,6 +434,20 @@ func (e *c12Env) observe() c12Obs {
 		n = append(n, 1, int64(st.Buffer.VerifNextIdx()))
 		for _, k := range e.uk {
 			v, err := cs.GetData(k)
+			if err != nil {
+				panic(err)
+			}
+			n = encOpt(n, v)
+		}
+		for _, k := range e.uk {
+			if cs.HasKey(k) {
+				n = append(n, 1)
+			} else {
+				n = append(n, 0)
+			}
+		}
+		for _, k := range e.uk {
+			v, err := cs.GetInitialData(k)
 			if err != nil {
 				panic(err)
 			}
@@ -325,10 +496,10 @@ func (e *c12Env) observe() c12Obs {
 	for i := range keys {
 		n = append(n, e.keyCode(keys[i]))
 		if st, ok := e.known[string(vals[i])]; ok {
-			n = append(n, new(big.Int).SetBytes(st.Balance).Int64())
+			n = append(n, e.fields(st)...)
 			rb = append(rb, hex.EncodeToString(st.StorageRoot))
 		} else {
-			n = append(n, -7777)
+			n = append(n, -7777, 0, 0, 0, 0)
 			rb = append(rb, "unknown:"+hex.EncodeToString(vals[i]))
 		}
 	}
@@ -338,11 +509,23 @@ func (e *c12Env) observe() c12Obs {
 		if as.IsNew() {
 			isNew = 1
 		}
-		secAH = append(secAH, as.Balance().Int64(), isNew)
+		isC := int64(0)
+		if as.IsContract() {
+			isC = 1
+		}
+		secAH = append(append(secAH, e.fields(as.State())...), isNew, isC)
 		r4 = append(r4, hex.EncodeToString(as.StorageRoot()))
 	}
-	r := append(append(append(append(r1, r3...), rb...), r4...), hex.EncodeToString(e.sdb.GetRoot()))
-	return c12Obs{A: secA, H: secH, C: secC, B: n, AH: secAH, R: r}
+	var secHS []int64
+	var r5 []string
+	secHS = append(secHS, int64(len(e.handles)))
+	for _, cs := range e.handles {
+		secHS = append(secHS, e.fields(cs.State)...)
+		r5 = append(r5, hex.EncodeToString(cs.State.StorageRoot))
+	}
+	secL := append([]int64{int64(len(e.last))}, e.last...)
+	r := append(append(append(append(append(r1, r3...), rb...), r4...), r5...), hex.EncodeToString(e.sdb.GetRoot()))
+	return c12Obs{A: secA, H: secH, C: secC, B: n, AH: secAH, HS: secHS, L: secL, R: r}
 }
 
 func (e *c12Env) stepObs(op []interface{}) (o c12Obs) {
@@ -369,6 +552,11 @@ func TestVerifC12Engine(t *testing.T) {
 	for v := int64(0); v < 256; v++ {
 		vhash[string(statedb.VerifHash(c12Val(v)))] = v
 	}
+	chash := map[string]int64{}
+	for v := int64(1); v < 256; v++ {
+		chash[string(common.Hasher(c12Code(v)))] = v
+		chash[string(common.Hasher(c12Src(v)))] = v
+	}
 	dir := t.TempDir()
 	sc := bufio.NewScanner(in)
 	sc.Buffer(make([]byte, 1<<20), 1<<28)
@@ -378,10 +566,13 @@ func TestVerifC12Engine(t *testing.T) {
 		if err := json.Unmarshal(sc.Bytes(), &tr); err != nil {
 			t.Fatal(err)
 		}
-		store := db.NewDB(db.MemoryImpl, dir)
-		e := &c12Env{store: store, known: map[string]*types.State{}, vhash: vhash}
-		e.sdb = statedb.NewStateDB(store, nil, false)
-		e.bs = NewBlockState(e.sdb)
+		csdb := NewChainStateDB()
+		if err := csdb.Init(string(db.MemoryImpl), dir, nil, false, nil); err != nil {
+			t.Fatal(err)
+		}
+		e := &c12Env{store: csdb.store, csdb: csdb, known: map[string]*types.State{}, vhash: vhash, chash: chash}
+		e.bs = csdb.NewBlockState(csdb.GetRoot())
+		e.sdb = e.bs.StateDB
 		for _, a := range tr.Ua {
 			e.ua = append(e.ua, []byte(a))
 			e.aids = append(e.aids, types.ToAccountID([]byte(a)))
